@@ -37,7 +37,7 @@ LEVEL = "exploration"
 
 N_STRIPES = {"quick": 4, "thorough": 32}
 N_RANDOM_SHARDS = {"quick": 12, "thorough": 32}
-RANDOM_PER_SHARD = {"quick": 250, "thorough": 5000}
+RANDOM_PER_SHARD = {"quick": 1500, "thorough": 12000}
 
 RULE = (
     "Exhaustive part: every first-round input of C14's bounded space (thorough: <=4 members x <=3 "
@@ -129,6 +129,11 @@ def run_history(lib, case, run: Run, tag=None):
             md[m] = lib.wire(x) if wire else x
         try:
             res = _assign(lib, layout, subs, md)
+        except lib.stickyguard.StickyNonTermination:
+            # assign() that never returns is C14's subject (known finding there); there is no second
+            # result to compare, so the history ends here unjudged
+            run.count("history_cut_by_nonterminating_assign")
+            return fired
         except Exception as e:  # noqa: BLE001
             mech = f"sticky_round_raises_{type(e).__name__}"
             fired.append(mech)
